@@ -36,6 +36,54 @@ def witnesses():
     return w
 
 
+def handler_program(rng):
+    """the handler of a body runs as part of that body — it sees the body's inputs, 此's properties and the methods of its own
+    module — wherever the exception came from: a statement of the body, a built-in method that failed, a method the body
+    called (at any depth), a constructor; and its 输出 value (空 without one) is the body's value"""
+    def fault(depth):
+        k = rng.randrange(6)
+        if k == 0:
+            return [Decl([(False, ["Vz"], Arith("/", Num(1), Num(0)))])]
+        if k == 1:
+            return [Decl([(False, ["Vl"], Arr([Num(1), Num(2)]))]), ExprS(Method(Var("Vl"), [("交换", [Num(0), Num(9)])]))]
+        if k == 2:
+            return [Decl([(False, ["Vd"], Map([("k", Num(1))]))]), Display(Index(Var("Vd"), Str("nokey")))]
+        if k == 3:
+            return [Throw("异常", [Str("boom")])]
+        if k == 4:
+            return [Decl([(False, ["Vl"], Arr([Num(1)]))]), ExprS(Method(Var("Vl"), [("新增", [Num(5), Str("x")])]))]
+        return [Display(Call("Fdeep%d" % depth, []))]
+    defs = [Func("Fk", ["Kx"], [Display(Str("k"), Var("Kx")), Return(Arith("+", Var("Kx"), Num(100)))], []),
+            Func("Fdeep0", [], [ExprS(Index(Arr([Num(1)]), Num(7))), Return(Num(0))], []),
+            Func("Fdeep1", [], [Display(Call("Fdeep0", [])), Return(Num(0))], [])]
+    handler = [Display(Str("h"), Var("Pa"), Var("Pb"))]
+    if rng.random() < 0.7:
+        handler.append(Display(Call("Fk", [Var("Pa")])))
+    if rng.random() < 0.6:
+        handler.append(Return(rng.choice([Var("Pb"), Call("Fk", [Num(1)]), Str("handled")])))
+    elif rng.random() < 0.5:
+        handler.append(ExprS(Arith("+", Var("Pa"), Num(1))))       # a last statement with a value, but no 输出: the body yields 空
+    body = [Display(Str("b"), Var("Pa"))] + fault(rng.randrange(2)) + [Display(Str("unreachable")), Return(Num(-1))]
+    how = rng.randrange(3)
+    if how == 0:
+        defs.append(Func("Fh", ["Pa", "Pb"], body, [("异常", handler)]))
+        use = [Decl([(False, ["Vr"], Call("Fh", [Num(rng.randrange(1, 9)), Str("pb")]))])]
+    elif how == 1:
+        hb = handler + [Display(ThisProp("Pp"))] if rng.random() < 0.5 else handler
+        defs.append(Class("Ch", [("Pp", Num(5))], [("Mh", ["Pa", "Pb"], body, [("异常", hb)])]))
+        use = [Decl([(False, ["Vo"], New("Ch", []))]), Decl([(False, ["Vr"], Method(Var("Vo"), [("Mh", [Num(3), Str("pb")])]))])]
+    else:
+        defs.append(Func("Fh", ["Pa", "Pb"], body, [("异常", handler)]))
+        defs.append(Func("Fouter", [], [Decl([(False, ["Vi"], Call("Fh", [Num(2), Str("pb")]))]), Display(Str("outer"), Var("Vi")),
+                                          Return(Var("Vi"))], []))
+        use = [Decl([(False, ["Vr"], Call("Fouter", []))])]
+    main = defs + use + [Display(Str("after"), Var("Vr")), Display(Call("Fk", [Num(2)])), Return(Var("Vr"))]
+    return ([], main, [])
+
+
 def run(chk, replay=None):
-    semprop.run_property(chk, "C09", "c09", PROFILES, 140, 1500, replay=replay, extra_programs=witnesses(),
+    extra = witnesses()
+    if replay is None:
+        extra += [(handler_program(chk.rng), None, "handler-sees-its-body") for _ in range(40 if chk.tier == "quick" else 500)]
+    semprop.run_property(chk, "C09", "c09", PROFILES, 110, 1500, replay=replay, extra_programs=extra,
                          what="exception propagation / unwinding differs from the documented behaviour")
